@@ -244,6 +244,183 @@ def check(ctx):
     ctx.oblige("R-C04.3", "parameters of a definition are registered for the body, each named one, up to the ellipsis", ok)
     if not ok:
         ctx.violation("R-C04.3", f"param-registration:{detail}", f"_parse_function_decl must register every named parameter when (and only when) a function body follows; the loop may stop only at the ellipsis ({detail})", file=px.rel, function="CParser._parse_function_decl")
+    # ---- R-C04.6: a declared name is registered before anything after its declarator is consumed ---------------------------------
+    # C99 6.2.1p7: the scope of an identifier begins just after the completion of its declarator.  The lexer classifies an identifier as type name
+    # or not when it lexes it, so the parser must register a declarator's name before it consumes a token that follows the declarator (its
+    # initialiser, the next declarator of the list): `int T = 2, y = (T) - 1;` must see T as a variable in `(T) - 1`.  Decided on the event automata:
+    # per production clone, a path  [declarator parsed] ... [token consumed] ... [names registered]  is a late registration.
+    ctx.rule("R-C04.6", "timing: the name a declarator declares is registered before any token after that declarator is consumed (no initialiser, further declarator or body is parsed between a declarator and the registration of its name)")
+    from .. import e1 as _e16
+    ex6, g6 = _e16.get()
+    DECLARATORS = {k for k in ex6.prods if "declarator" in k[0] and "abstract" not in k[0] and "struct" not in k[0] and "init" not in k[0] and "list" not in k[0]}
+    if len({k[0] for k in DECLARATORS}) < 3:
+        raise AnalysisError("declarator productions not found in the grammar model")
+
+    NESTED_CONSTRUCTS = set(WCm.EXPR) | {"_parse_type_name", "_parse_initializer", "_parse_initializer_list", "_parse_initializer_item", "_parse_constant_expression", "_parse_compound_statement",
+                                          "_parse_struct_or_union_specifier", "_parse_enum_specifier", "_parse_alignment_specifier", "_parse_atomic_specifier", "_parse_static_assert"}
+
+    def is_reg(ev):
+        if ev[0] != "opaque":
+            return False
+        if ev[1] in ("_add_identifier", "_add_typedef_name", "_build_function_definition"):
+            return True
+        return ev[1] == "_build_declarations" and any(k_ == "typedef_namespace" and v_ == ("c", True) for k_, v_ in ev[2])
+    # per clone: can its subtree parse a declarator / consume a token / consume a token AFTER a declarator it parsed
+    has_decl, can_consume, decl_then_consume = {}, {}, {}
+    changed = True
+    while changed:
+        changed = False
+        for k, p_ in ex6.prods.items():
+            hd = cc = False
+            for e_ in p_.edges:
+                if e_.dst in p_.error_nodes:
+                    continue
+                for ev in e_.events:
+                    if ev[0] == "consume":
+                        cc = True
+                    elif ev[0] == "call":
+                        ck = (ev[1], ev[2])
+                        # declarators nested inside an expression / initialiser / type name (casts, sizeof, compound literals) belong to constructs of
+                        # their own: only the declarators of THIS declaration count
+                        if (ck in DECLARATORS or has_decl.get(ck)) and k[0] not in NESTED_CONSTRUCTS:
+                            hd = True
+                        if ck in DECLARATORS or can_consume.get(ck, ck in DECLARATORS):
+                            cc = cc or bool(can_consume.get(ck)) or ck in DECLARATORS
+            if hd != has_decl.get(k, False) or cc != can_consume.get(k, False):
+                has_decl[k], can_consume[k] = hd, cc
+                changed = True
+
+    def scan(p_, want_reg):
+        """paths of one clone: state 0 = no declarator yet, 1 = a declarator was parsed, 2 = ... and a token was consumed since.
+        want_reg: report registration events reached in state 2; otherwise report whether state 2 is reachable at all (for the summaries)."""
+        out_ = p_.out()
+        seen = {(p_.start, 0)}
+        todo = [(p_.start, 0)]
+        hits = []
+        reach2 = False
+        while todo:
+            node, stt = todo.pop()
+            for e_ in out_.get(node, []):
+                if e_.dst in p_.error_nodes:
+                    continue
+                cur = stt
+                for ev in e_.events:
+                    if ev[0] == "consume":
+                        if cur == 1:
+                            cur = 2
+                    elif ev[0] == "call":
+                        ck = (ev[1], ev[2])
+                        if cur == 1 and (can_consume.get(ck) or ck in DECLARATORS):
+                            cur = 2
+                        if ck in DECLARATORS or has_decl.get(ck):
+                            if decl_then_consume.get(ck):
+                                cur = 2
+                            elif cur == 0:
+                                cur = 1
+                    elif is_reg(ev):
+                        if cur == 2 and want_reg:
+                            hits.append((ev[1], ev[3] if len(ev) > 3 else 0))
+                        cur = 0          # the names parsed so far are registered now
+                    if cur == 2:
+                        reach2 = True
+                if (e_.dst, cur) not in seen:
+                    seen.add((e_.dst, cur))
+                    todo.append((e_.dst, cur))
+        return hits, reach2
+    changed = True
+    while changed:
+        changed = False
+        for k, p_ in ex6.prods.items():
+            if k in DECLARATORS:
+                continue
+            _h, r2 = scan(p_, False)
+            # a clone that registers what it parsed on every path is not "declarator then consumption" for its callers; approximated by: it has no
+            # registration event at all and state 2 is reachable
+            has_reg = any(is_reg(ev) for e_ in p_.edges for ev in e_.events)
+            v = r2 and not has_reg
+            if v != decl_then_consume.get(k, False):
+                decl_then_consume[k] = v
+                changed = True
+    n6 = 0
+    late = {}
+    for k, p_ in sorted(ex6.prods.items(), key=str):
+        if not any(is_reg(ev) for e_ in p_.edges for ev in e_.events):
+            continue
+        hits, _r2 = scan(p_, True)
+        n6 += 1
+        ok = not hits
+        ctx.oblige("R-C04.6", f"{_e16.sig_text(k)}: names are registered before the tokens after their declarator are consumed", ok,
+                   sample={"rule": "R-C04.6", "production": _e16.sig_text(k), "registrations reached after a declarator AND later consumption": sorted(set(hits))[:4]})
+        if hits:
+            late.setdefault(k[0], set()).update(h[0] for h in hits)
+    for prod, regs in sorted(late.items()):
+        ctx.violation("R-C04.6", f"late-registration:{prod}", f"in {prod} the registration of declared names ({', '.join(sorted(regs))}) is reached only after tokens that FOLLOW a declarator have been consumed "
+                      "(an initialiser, the next declarator of the list, a parameter list's closing parenthesis, a function body): identifiers lexed in between are classified with the old meaning of the name - "
+                      "`typedef int T; void f(void){ int T = 2, y = (T) - 1; }` parses `(T) - 1` as a cast", file=px.rel, function=f"CParser.{prod}")
+    if n6 < 3:
+        raise AnalysisError(f"only {n6} production clones with a registration event found (confirmed by reading: external declarations, declaration bodies, function declarators)")
+    # ---- R-C04.7: statements that are blocks do not leak declarations -----------------------------------------------------------
+    # C99 6.8.4p3 / 6.8.5p5: a selection statement and an iteration statement are blocks whose scope is a strict subset of the enclosing block's:
+    # a name declared inside them (the declaration clause of a for statement) is not visible after them.  Scopes are opened and closed by the braces
+    # the lexer sees, so a production "leaks" when a registration happens in its subtree outside every brace pair consumed in that subtree.
+    ctx.rule("R-C04.7", "scope of statements: nothing declared inside a selection or iteration statement (for-init declarations) stays registered after the statement - every registration in their subtree lies between braces consumed in that subtree")
+
+    def leaks_at_depth0(p_, leak_of):
+        out_ = p_.out()
+        seen = {(p_.start, 0)}
+        todo = [(p_.start, 0)]
+        found = []
+        while todo:
+            node, depth = todo.pop()
+            for e_ in out_.get(node, []):
+                if e_.dst in p_.error_nodes:
+                    continue
+                d = depth
+                for ev in e_.events:
+                    if ev[0] == "consume":
+                        tys = set(ev[1])
+                        if tys == {"LBRACE"}:
+                            d = min(d + 1, 3)
+                        elif tys == {"RBRACE"}:
+                            d = max(d - 1, 0)
+                    elif ev[0] == "call":
+                        if d == 0 and leak_of.get((ev[1], ev[2])):
+                            found.append(ev[1])
+                    elif is_reg(ev) and d == 0:
+                        # a registration made while the NEXT token is known to be '{' goes into the scope that brace has already opened (the lexer
+                        # pushes the scope when it lexes the brace, i.e. when the parser peeks it): parameters of a function definition
+                        la_ = p_.node_info[e_.src].get("la") if e_.src < len(p_.node_info) else None
+                        if la_ is not None and set(la_[0]) <= {"LBRACE"}:
+                            continue
+                        found.append(ev[1])
+                if (e_.dst, d) not in seen:
+                    seen.add((e_.dst, d))
+                    todo.append((e_.dst, d))
+        return found
+    leak = {}
+    changed = True
+    while changed:
+        changed = False
+        for k, p_ in ex6.prods.items():
+            v = bool(leaks_at_depth0(p_, leak))
+            if v != leak.get(k, False):
+                leak[k] = v
+                changed = True
+    BLOCK_STATEMENTS = ("_parse_iteration_statement", "_parse_selection_statement")
+    n7 = 0
+    for k, p_ in sorted(ex6.prods.items(), key=str):
+        if k[0] not in BLOCK_STATEMENTS:
+            continue
+        n7 += 1
+        # (a nested statement that leaks is reported at that statement's own production: only the direct sources count here)
+        what = sorted(x for x in set(leaks_at_depth0(p_, leak)) if x not in WCm.STMT)
+        ok = not what
+        ctx.oblige("R-C04.7", f"{_e16.sig_text(k)} keeps its declarations to itself", ok, sample={"rule": "R-C04.7", "production": _e16.sig_text(k), "registrations outside every brace pair of the statement": what})
+        if not ok:
+            ctx.violation("R-C04.7", f"scope-leak:{k[0]}", f"{k[0]} registers declared names (through {', '.join(what)}) outside every brace pair it consumes: they land in the ENCLOSING scope and stay there after the statement, "
+                          "although C99 makes the statement a block of its own - `typedef int T; void g(void){ for (int T = 0; T < 3; T++) ; T y; }` is rejected because T is still the loop variable after the loop", file=px.rel, function=f"CParser.{k[0]}")
+    if n7 < 2:
+        raise AnalysisError("selection / iteration statement productions not found in the grammar model")
     # ---- R-C04.4 -----------------------------------------------------------------
     reg = {"_add_identifier", "_add_typedef_name"}
     for m in ("_parse_struct_or_union_specifier", "_parse_enum_specifier", "_parse_labeled_statement", "_parse_jump_statement", "_parse_struct_declarator", "_parse_struct_declarator_list", "_parse_postfix_expression", "_parse_designator"):
